@@ -210,6 +210,10 @@ func init() {
 		r := NewReport("X", "quick")
 		pk := map[string]bool{}
 		for _, a := range os.Args[2:] {
+			if a == "-all" {
+				allSlices = true
+				continue
+			}
 			pk[p.pkgPath(a)] = true
 		}
 		ruleGen(p, r, "R-GEN", func(f *ssa.Function) bool { return fnPkg(f) != nil && pk[fnPkg(f).Path()] }, nil, 1)
@@ -230,4 +234,15 @@ func min(a, b int) int {
 		return a
 	}
 	return b
+}
+
+func init() {
+	// vsa ridxgen <pkgs...>: prints the access keys (function/field) whose bounds are proved today
+	if len(os.Args) > 2 && os.Args[1] == "ridxgen" {
+		p := Load(LoadOpts{Dir: repoDir(), Patterns: []string{"./..."}, ModPath: modPath, MinPkgs: 13})
+		for _, k := range idxKeys(p, os.Args[2:]) {
+			fmt.Println(k)
+		}
+		os.Exit(0)
+	}
 }
